@@ -12,6 +12,7 @@ import z3
 
 from pyvc.core import Contract, Case
 from pyvc.runner import Lemma, Bounded
+from pyvc.values import GenericIter
 from pyvc.values import SV, SymMap, SymSeq, SymObj, Leaf, NameSort, real_val
 from pyvc import amlmodel, library
 from pyvc.amlmodel import ModelStub, Con
@@ -85,9 +86,17 @@ def row_of(m, field, n):
     return mp, written_value(mp, n)
 
 
-def updater_registered(upd, obj, attrs):
+def updater_registered(upd, obj, attrs, builder=None):
+    """the builder registered, for each tracked attribute of obj, a callback; when `builder` is given every
+    callback registered for obj must be that builder's own update (re-building a different row on a change of
+    the attribute would leave this row stale)."""
     got = {(id(o), a) for (o, a, f) in upd.calls}
-    return all((id(obj), a) in got for a in attrs)
+    ok = all((id(obj), a) in got for a in attrs)
+    if builder is not None:
+        for (o, a, f) in upd.calls:
+            if o is obj and not (getattr(f, "__self__", None) is builder and getattr(f, "__func__", None) is builder.update.__func__):
+                ok = False
+    return ok
 
 
 MODELS = amlmodel.build_models
@@ -117,7 +126,7 @@ def _leak_case(cls, leak_status, isolated, existing):
         wn.nodes.append((n, node))
         m = mk_model(cx, existing="leak_con" if existing else None)
         upd = Updater()
-        cx.target(constraint.leak_constraint.build, m, wn, upd, [n])
+        cx.target(constraint.leak_constraint.build, m, wn, upd, GenericIter([n]))
 
         def post(out):
             if not out.returned:
@@ -142,7 +151,7 @@ def _leak_case(cls, leak_status, isolated, existing):
             else:
                 posts.append(("no_row_when_inactive_or_isolated", z3.Not(indom) if not isinstance(indom, bool) else (not indom)))
             posts.append(("frame_only_own_row", frame_ok(cx.path, [mp], n)))
-            posts.append(("updater_tracks_leak_status_and_isolation", updater_registered(upd, node, ["leak_status", "_is_isolated"])))
+            posts.append(("updater_tracks_leak_status_and_isolation", updater_registered(upd, node, ["leak_status", "_is_isolated"], constraint.leak_constraint)))
             return posts
         cx.ensure(post)
     return Case("%s,leak=%s,isolated=%s,existing=%s" % (cls.__name__, leak_status, isolated, existing), build, crosscheck=False)
@@ -184,7 +193,7 @@ def _pdd_case(isolated, exp_mode, existing):
         wn.nodes.append((n, node))
         m = mk_model(cx, existing="pdd" if existing else None)
         upd = Updater()
-        cx.target(constraint.pdd_constraint.build, m, wn, upd, [n])
+        cx.target(constraint.pdd_constraint.build, m, wn, upd, GenericIter([n]))
 
         def post(out):
             if not out.returned:
@@ -214,7 +223,7 @@ def _pdd_case(isolated, exp_mode, existing):
             else:
                 posts.append(("no_row_when_isolated", z3.Not(indom) if not isinstance(indom, bool) else (not indom)))
             posts.append(("frame_only_own_row", frame_ok(cx.path, [mp], n)))
-            posts.append(("updater_tracks_isolation", updater_registered(upd, node, ["_is_isolated"])))
+            posts.append(("updater_tracks_isolation", updater_registered(upd, node, ["_is_isolated"], constraint.pdd_constraint)))
             return posts
         cx.ensure(post)
     return Case("isolated=%s,exponent=%s,existing=%s" % (isolated, exp_mode, existing), build, crosscheck=False)
@@ -257,7 +266,7 @@ def _mb_case(builder, demand_field, leak_status, isolated, existing):
         cx.path.assume(S_IN(n.t, 0) == 0)
         cx.path.assume(S_OUT(n.t, 0) == 0)
         cx.n = n
-        cx.target(builder.build, m, wn, upd, [n])
+        cx.target(builder.build, m, wn, upd, GenericIter([n]))
 
         def post(out):
             if not out.returned:
@@ -276,7 +285,7 @@ def _mb_case(builder, demand_field, leak_status, isolated, existing):
             else:
                 posts.append(("no_row_when_isolated", z3.Not(indom) if not isinstance(indom, bool) else (not indom)))
             posts.append(("frame_only_own_row", frame_ok(cx.path, [mp], n)))
-            posts.append(("updater_tracks_leak_status_and_isolation", updater_registered(upd, node, ["leak_status", "_is_isolated"])))
+            posts.append(("updater_tracks_leak_status_and_isolation", updater_registered(upd, node, ["leak_status", "_is_isolated"], builder)))
             return posts
         cx.ensure(post)
     return Case("%s,leak=%s,isolated=%s,existing=%s" % (builder.__name__, leak_status, isolated, existing), build, crosscheck=False)
@@ -410,7 +419,7 @@ def _link_builder_cases(builder, dictname, cls, is_predicates, spec_open, spec_a
                             requires(cx, l, s, e, sk, ek)
                         m = mk_model(cx, existing=dictname if existing else None)
                         upd = Updater()
-                        cx.target(builder.build, m, wn, upd, [l])
+                        cx.target(builder.build, m, wn, upd, GenericIter([l]))
                         st = spec_status(cls, user, internal)
 
                         def post(out):
@@ -432,7 +441,7 @@ def _link_builder_cases(builder, dictname, cls, is_predicates, spec_open, spec_a
                                 for nm, g in spec_open(cx, w.term.t, q, hs, he, l, s, e, link, m):
                                     posts.append((nm, g))
                             posts.append(("frame_only_own_row", frame_ok(cx.path, [mp], l)))
-                            posts.append(("updater_tracks_status_and_isolation", updater_registered(upd, link, ["status", "_is_isolated"])))
+                            posts.append(("updater_tracks_status_and_isolation", updater_registered(upd, link, ["status", "_is_isolated"], builder)))
                             return posts
                         cx.ensure(post)
                     cases.append(Case("%s,user=%s,internal=%s,isolated=%s,%s->%s,existing=%s" % (
